@@ -20,7 +20,7 @@ RULE = ('operators (+ - * / ** neg ==, reflected with plain numbers), value(unit
         'distinct by (operation, operand kinds and units, follow-up steps)')
 SHARDS = {'quick': 16, 'thorough': 16}
 MIN_NONTRIVIAL = {'quick': 2500, 'thorough': 60000}
-REQUIRED_CLASSES = ['neutral-element-operand', 'op:+', 'op:-', 'op:*', 'op:/', 'op:==', 'op:pow', 'op:neg', 'op:getitem', 'op:value', 'op:ufunc', 'op:func',
+REQUIRED_CLASSES = ['reflected-numpy', 'neutral-element-operand', 'op:+', 'op:-', 'op:*', 'op:/', 'op:==', 'op:pow', 'op:neg', 'op:getitem', 'op:value', 'op:ufunc', 'op:func',
                     'reflected', 'kind:same-unit', 'kind:other-unit', 'kind:reciprocal', 'kind:nodim', 'kind:log', 'kind:temp',
                     'kind:decimal', 'kind:array', 'kind:uncertain', 'followup:to', 'followup:rebase', 'followup:abse', 'followup:rele',
                     'followup:write', 'followup-on-result', 'followup-on-operand', 'twin-probe', 'repo-tests-under-contracts']
@@ -134,7 +134,7 @@ def cases(rng, tier, shard, nshards, ctx):
         # ---- operation
         o = rng.random()
         if o < 0.42:
-            op = dict(k='bin', op=rng.choice(['+', '-', '+', '-', '*', '/']), side=rng.choice(['QQ', 'QQ', 'QQ', 'Qn', 'nQ']), num=rng.choice([2.0, 0.5, 3, -1.5, 1, 1.0, 0, 0.0]))
+            op = dict(k='bin', op=rng.choice(['+', '-', '+', '-', '*', '/']), side=rng.choice(['QQ', 'QQ', 'QQ', 'Qn', 'nQ', 'nQ']), num=rng.choice([2.0, 0.5, 3, -1.5, 1, 1.0, 0, 0.0]), numtype=rng.choice(['py', 'np.float64', 'ndarray']))
         elif o < 0.52:
             op = dict(k='eq', side=rng.choice(['QQ', 'QQ', 'Qn']), num=rng.choice([2.0, 1]))
         elif o < 0.58:
@@ -282,7 +282,12 @@ def _run(case, ctx):
                 res = f(A, op['num'])
             else:
                 classes.append('reflected')
-                res = f(op['num'], A)
+                num = op['num']
+                if op.get('numtype') == 'np.float64':
+                    num = np.float64(num); classes.append('reflected-numpy')
+                elif op.get('numtype') == 'ndarray':
+                    num = np.array([num, num * 2.0]) if not isinstance(a_spec['v'], list) else np.array([num, 1.0, 3.0]); classes.append('reflected-numpy')
+                res = f(num, A)
         elif k == 'eq':
             classes.append('op:==')
             if op['side'] == 'QQ':
